@@ -24,8 +24,14 @@ def _install():
     def _format2(obj, format_spec=""):
         with NoTracing():
             lazy = isinstance(obj, B.SymbolicInt) and isinstance(format_spec, str) and format_spec == ""
+            # an object with a Python-level __format__ (the harnesses' lazily rendered diagnostics) may close over
+            # symbolic values: run it under tracing (CrossHair's own patch would call it with the tracer off)
+            fn = None if isinstance(obj, CrossHairValue) else getattr(type(obj), "__format__", None)
+            user = isinstance(fn, types.FunctionType)
         if lazy:
             return str(obj)
+        if user:
+            return fn(obj, format_spec)
         return _orig_format(obj, format_spec)
 
     _PATCH_REGISTRATIONS[format] = _format2
